@@ -202,6 +202,29 @@ def obligations(r, tier, seed):
     obs.append(Ob("C02/Graph.calc_chi2/real-edges-SE2-R2", graph_real, scope="shape-bounded", bound="one 3-vertex, 3-edge graph",
                   funcs=["graphslam.graph.Graph.calc_chi2", BASE + ".calc_chi2"]))
 
+    def graph_requery(k):
+        r_ = k.r
+        from gsv.contracts.c01 import FIRST_STATE
+        a0, b0, l0 = k.pose_from_raw("SE2", FIRST_STATE["SE2"][0]), k.pose_from_raw("SE2", FIRST_STATE["SE2"][1]), k.pose_from_raw("R2", FIRST_STATE["R2"][0])
+        vs = [r_.Vertex(7, a0), r_.Vertex(-2, l0), r_.Vertex(3, b0)]
+        e1 = r_.EdgeOdometry([7, 3], k.sym_matrix("O1", 3), k.pose("SE2", "z1"))
+        e3 = r_.EdgeLandmark([3, -2], k.sym_matrix("O3", 2), k.pose("R2", "z3"), k.pose("SE2", "off"), 0)
+        g = r_.Graph([e1, e3], vs)
+        first = g.calc_chi2()
+        a, b, l = k.pose("SE2", "a"), k.pose("SE2", "b"), k.pose("R2", "l")
+        vs[0].pose = a                      # replaced (what the optimizer does)
+        vs[1].pose[:] = l.to_array()        # changed in place
+        vs[2].pose[:] = b.to_array()
+        want = 0
+        for e in (e1, e3):
+            want = want + quadform(e.calc_error(), e.information)
+        k.eq(g.calc_chi2(), want, "Graph.calc_chi2() after the poses changed == sum of e^T Omega e at the current poses")
+        fresh = r_.Graph([r_.EdgeOdometry([7, 3], e1.information, e1.estimate), r_.EdgeLandmark([3, -2], e3.information, e3.estimate, e3.offset, 0)],
+                         [r_.Vertex(7, a), r_.Vertex(-2, l), r_.Vertex(3, b)])
+        k.eq(g.calc_chi2(), fresh.calc_chi2(), "... == calc_chi2() of a freshly built graph with those poses")
+    obs.append(Ob("C02/Graph.calc_chi2/after-poses-changed", graph_requery, scope="shape-bounded", bound="one 3-vertex, 2-edge graph",
+                  funcs=["graphslam.graph.Graph.calc_chi2", BASE + ".calc_chi2"]))
+
     # ---- the chi2 that optimize() accumulates and reports is the same sum over ALL edges (also edges that touch fixed vertices only)
     for fixed in ((), (0,), (0, 1), (0, 1, 2)):
         def reported(k, fixed=fixed):
@@ -221,6 +244,17 @@ def obligations(r, tier, seed):
         obs.append(Ob("C02/Graph.optimize-reports-the-sum-over-all-edges/fixed=%s" % (",".join(map(str, fixed)) or "none"), reported, scope="shape-bounded",
                       bound="3 vertices, 5 cut edges, fixed set %s" % (fixed,), funcs=["graphslam.graph.Graph._calc_chi2_gradient_hessian", "graphslam.graph.Graph.calc_chi2"],
                       solver="functional", light=True))
+
+    # ---- error and chi2 depend on the current values only (see c01.requery)
+    from gsv.contracts.c01 import requery
+    for kind, TP, TL in [("odometry", T, T) for T in TYPES] + [("landmark", a, b) for a, b in LANDMARK_TYPINGS]:
+        for how in ("replaced", "changed-in-place"):
+            if tier == "quick" and how == "replaced" and TP != "SE3":
+                continue
+            def rq(k, kind=kind, TP=TP, TL=TL, how=how):
+                requery(k, kind, TP, TL, how, ("error",))
+            obs.append(Ob("C02/%s/%s/error-and-chi2-depend-on-the-current-values-only/%s" % (kind, TP if kind == "odometry" else TP + "-" + TL, how), rq,
+                          funcs=[(ODO if kind == "odometry" else LMK) + ".calc_error", BASE + ".calc_chi2"], eager=(TP == "SE3")))
 
     # canaries
     def canary_transposed(k):
